@@ -68,6 +68,13 @@ def run(scn, stats):
                 if not (set(names) & named):
                     raise Violation("failed-without-unreachable-join-error", {"joins": names, "errors": d.c.errors, "definition": defn, "history": common.history_summary(r)})
             stats.label("partial-join-at-rest")
+    if r.engine_exception is None and not r.truncated and d.quiescent() and status in ("failed", "succeeded") and not flow.late_arrivals:
+        # a join whose barrier was satisfied runs once: at rest none may be left that fired and was never offered,
+        # unless something else had stopped the workflow before
+        owed = sorted(k for k, v in flow.due.items() if v > 0 and k[0] in joins)
+        stopped = flow.must_fail or flow.unhandled or flow.fail_cmd or flow.runtime_error or r.cancel_requested or flow.canceled_action
+        if owed and not stopped:
+            raise Violation("join-with-satisfied-barrier-never-ran", {"joins": [list(k) for k in owed], "status": status, "errors": [e.get("message") for e in d.c.errors], "definition": defn, "history": common.history_summary(r)})
     labels = []
     if seen["late-after-dispatch"]:
         labels.append("arrival-after-join-dispatched")
